@@ -3,7 +3,9 @@ package checks
 import (
 	"bytes"
 	"context"
+	"encoding/json"
 	"fmt"
+	"os"
 	"io/fs"
 	"sort"
 	"strings"
@@ -95,4 +97,24 @@ func clip(s string, n int) string {
 		return s[:n] + "…"
 	}
 	return s
+}
+
+// loadSites reads the instrumenter's site table (map-order seam) so that signatures can
+// name functions instead of line numbers.
+func loadSites() {
+	dir := os.Getenv("VERIF_OVERLAY_DIR")
+	if dir == "" {
+		return
+	}
+	b, err := os.ReadFile(dir + "/sites.json")
+	if err != nil {
+		return
+	}
+	var sites []struct{ ID, File, Func string }
+	if json.Unmarshal(b, &sites) != nil {
+		return
+	}
+	for _, s := range sites {
+		siteFuncs[s.ID] = strings.TrimSuffix(s.File, ".go") + "." + s.Func
+	}
 }
